@@ -48,9 +48,10 @@ class P(Prop):
             if not mech:
                 for k in range(nprop):
                     comps.append({"name": f"drive{k}", "cls": "drive", "swb": rng.choice(swbs), "rated": Fraction(4000), "eff": [Fraction(15, 16)]})
-            naux = rng.choice([1, 1, 2]) if mech else rng.choice([0, 1, 1, 2])   # an electric plant without any consumer is rejected (remark R-10)
+            naux = rng.choice([1, 1, 2, 3]) if mech else rng.choice([0, 1, 1, 2, 3])   # an electric plant without any consumer is rejected (remark R-10)
+            uneven = naux == 3 and nswb == 2          # two auxiliary loads on one switchboard, one on the other
             for k in range(naux):
-                comps.append({"name": f"aux{k}", "cls": "load", "swb": rng.choice(swbs), "rated": Fraction(2000), "eff": [1]})
+                comps.append({"name": f"aux{k}", "cls": "load", "swb": ([1, 1, 2][k] if uneven else rng.choice(swbs)), "rated": Fraction(2000), "eff": [1]})
             mcomps = None
             if mech:
                 nprop = rng.randint(1, 2)
@@ -64,6 +65,8 @@ class P(Prop):
             if m >= 3 and rng.random() < 0.5:
                 steps[1] = steps[0]          # two equally long intervals
             ts = [Fraction(rng.randint(0, 1000)) + (Fraction(rng.randint(0, 7), 8) if frac else 0)]
+            if rng.random() < 0.3:
+                ts = [Fraction(0)]            # a profile on a relative time base: the first stamp is exactly 0 s
             for d in steps:
                 ts.append(ts[-1] + d)
             ps = [Fraction(rng.randint(0, 64), 64) * 4000 for _ in range(m)]
@@ -206,6 +209,15 @@ class P(Prop):
                     return f"time-series route: propulsor gets {p} but sample {k} / {case['nprop']} propulsors is {want} over {m - 1} intervals"
             if abs(ref["dt"][k] - float(case["ts"][k + 1] - case["ts"][k])) > 1e-9:
                 return f"interval {k} is {ref['dt'][k]} s, the stamps give {float(case['ts'][k + 1] - case['ts'][k])} s"
+        # the auxiliary power is split equally over the auxiliary loads, wherever they sit
+        if case["naux"]:
+            aux = case["aux"]
+            for k in range(m - 1):
+                want = float(aux[k] if isinstance(aux, list) else aux) / case["naux"]
+                for a_ in ref["aux"]:
+                    if len(a_) != m - 1 or abs(a_[k] - want) > 1e-9 * max(1.0, want):
+                        return (f"time-series route: an auxiliary load gets {a_} but interval {k}'s auxiliary power split equally over "
+                                f"{case['naux']} loads is {want}")
         # a sample is held until the next one: a genset's running hours are the intervals in which it delivers power
         from props.C19 import scalar_fields
         el = ref["snap"][-1]         # the electric system's result
@@ -250,6 +262,8 @@ class P(Prop):
             t.append("time-stamps-not-whole-seconds")
         if case.get("int_profile"):
             t.append("integer-typed-propulsion-series")
+        if case["ts"][0] == 0:
+            t.append("relative-time-base(first stamp 0 s)")
         if "stat_zero" in obs:
             t.append("statistics-with-a-zero-duration-mode")
         if isinstance(case["aux"], list) and any(a == 0 for a in case["aux"][:-1]) and not all(a == 0 for a in case["aux"]):
